@@ -50,6 +50,11 @@ func (m *TimerMap) Add(key string, onTimeout func(), timeout time.Duration) {
 	m.timersMtx.Lock()
 	defer m.timersMtx.Unlock()
 
+	if m.timers == nil {
+		// The timer map has been shut down
+		return
+	}
+
 	m.timers[key] = time.AfterFunc(
 		timeout,
 		func() {
